@@ -22,17 +22,19 @@ vars == <<cur, bad, div>>
 \* projection of the logged state onto the modelled part (identity on shape, restriction on domain)
 ProjCache(c) ==
   IF ~c.loaded THEN Unloaded
-  ELSE [loaded |-> TRUE, last |-> c.last, del |-> c.del, owner |-> c.owner, auth |-> c.auth, anon |-> c.anon,
+  ELSE [loaded |-> TRUE, ischan |-> c.ischan, last |-> c.last, del |-> c.del, owner |-> c.owner, auth |-> c.auth, anon |-> c.anon,
         per |-> [u \in Users |-> [in |-> c.per[u].in, want |-> c.per[u].want, given |-> c.per[u].given, read |-> c.per[u].read,
                                   recv |-> c.per[u].recv, delId |-> c.per[u].delId, online |-> c.per[u].online,
                                   deleted |-> c.per[u].deleted, ischan |-> c.per[u].ischan]],
         att |-> c.att]
 Proj(st) ==
-  [topics |-> [t \in Topics |-> [exists |-> st.topics[t].exists, seq |-> st.topics[t].seq, delId |-> st.topics[t].delId,
+  [topics |-> [t \in Topics |-> [exists |-> st.topics[t].exists, ischan |-> st.topics[t].ischan, seq |-> st.topics[t].seq, delId |-> st.topics[t].delId,
                                   owner |-> st.topics[t].owner, auth |-> st.topics[t].auth, anon |-> st.topics[t].anon,
                                   public |-> st.topics[t].public]],
    subs   |-> [t \in Topics |-> [u \in Users |-> [st |-> st.subs[t][u].st, want |-> st.subs[t][u].want, given |-> st.subs[t][u].given,
                                                    read |-> st.subs[t][u].read, recv |-> st.subs[t][u].recv, delId |-> st.subs[t][u].delId]]],
+   csubs  |-> [t \in Topics |-> [u \in Users |-> [st |-> st.csubs[t][u].st, want |-> st.csubs[t][u].want, given |-> st.csubs[t][u].given,
+                                                   read |-> st.csubs[t][u].read, recv |-> st.csubs[t][u].recv, delId |-> st.csubs[t][u].delId]]],
    msgs   |-> [t \in Topics |-> [i \in DOMAIN st.msgs[t] |-> [seq |-> st.msgs[t][i].seq, from |-> st.msgs[t][i].from,
                                                               delId |-> st.msgs[t][i].delId, content |-> st.msgs[t][i].content]]],
    dlog   |-> [t \in Topics |-> [i \in DOMAIN st.dlog[t] |-> [delId |-> st.dlog[t][i].delId, for |-> st.dlog[t][i]["for"],
@@ -57,7 +59,12 @@ ObsReal(rec, k) ==
   IN [code |-> ReplyCode(rec),
       nack |-> IF rec.rid # "" THEN Len(mine) ELSE Len(anyReply),
       data |-> UNION {{[s |-> s, seq |-> DataFrames(rec, s)[i].seq, from |-> DataFrames(rec, s)[i].from,
-                        content |-> DataFrames(rec, s)[i].content, topic |-> DataFrames(rec, s)[i].topic] : i \in DOMAIN DataFrames(rec, s)} : s \in Sessions},
+                        content |-> DataFrames(rec, s)[i].content, topic |-> DataFrames(rec, s)[i].topic,
+                        aschan |-> DataFrames(rec, s)[i].aschan] : i \in DOMAIN DataFrames(rec, s)} : s \in Sessions},
+      info |-> UNION {{[s |-> s, from |-> Frames(rec, s)[i].from, what |-> Frames(rec, s)[i].what, seq |-> Frames(rec, s)[i].seq,
+                        topic |-> Frames(rec, s)[i].topic, src |-> Frames(rec, s)[i].src]
+                       : i \in {x \in DOMAIN Frames(rec, s) : Frames(rec, s)[x].k = "info"}} : s \in Sessions},
+      pushChan |-> {[channel |-> rec.push[i].channel, ischn |-> rec.push[i].chanIsChn] : i \in {j \in DOMAIN rec.push : rec.push[j].what = "msg"}},
       ndata |-> [s \in Sessions |-> Len(DataFrames(rec, s))],
       push |-> {ToSet(rec.push[i].to) : i \in {j \in DOMAIN rec.push : rec.push[j].what = "msg"}},
       ackSeq |-> IF rep.k = "ctrl" /\ "seq" \in DOMAIN rep.params THEN rep.params.seq ELSE 0,
@@ -94,6 +101,7 @@ Diverge(k) ==
        IN IF r.out.code = -1 THEN {}       \* request path not modelled
           ELSE (IF r.st.topics # post.topics THEN {"topics"} ELSE {})
                \cup (IF r.st.subs # post.subs THEN {"subs"} ELSE {})
+               \cup (IF r.st.csubs # post.csubs THEN {"csubs"} ELSE {})
                \cup (IF r.st.msgs # post.msgs THEN {"msgs"} ELSE {})
                \cup (IF r.st.dlog # post.dlog THEN {"dlog"} ELSE {})
                \cup (IF r.st.cache # post.cache THEN {"cache"} ELSE {})
